@@ -37,7 +37,7 @@ func C14(r *core.Run) {
 	}
 	r.Rule("R14.2", "every compiler-reported bounds site in the uploader is discharged (marker slice/index guarded)")
 	boundsRule(r, ctx, "R14.2", scope)
-	r.Floor("R14.2", 8, "uploader bounds sites")
+	r.Floor("R14.2", 5, "uploader bounds sites")
 	rule143(r)
 	rule144(r, ctx)
 	rule145(r)
@@ -181,9 +181,21 @@ func rule141(r *core.Run, ctx *oblig.Ctx) {
 			if !ok {
 				continue
 			}
+			// the loaded slot, or a value it is merged into (a helper's `return nil` / `return parts[n]`)
+			cands := []ssa.Value{ld}
 			for _, u := range *ld.Referrers() {
-				if b, ok := u.(*ssa.BinOp); ok && (b.Op == token.EQL || b.Op == token.NEQ) && (core.IsNilConst(b.X) || core.IsNilConst(b.Y)) {
-					okNil = true
+				if ph, isPhi := u.(*ssa.Phi); isPhi {
+					cands = append(cands, ph)
+				}
+			}
+			for _, cv := range cands {
+				if cv.Referrers() == nil {
+					continue
+				}
+				for _, u := range *cv.Referrers() {
+					if b, ok := u.(*ssa.BinOp); ok && (b.Op == token.EQL || b.Op == token.NEQ) && (core.IsNilConst(b.X) || core.IsNilConst(b.Y)) {
+						okNil = true
+					}
 				}
 			}
 		}
